@@ -40,6 +40,11 @@ def _impl():
     from nemoguardrails.context import llm_call_info_var
     from nemoguardrails.embeddings.index import EmbeddingsIndex
     from tests.utils import FakeLLM
+    import nemoguardrails.rails.llm.config as _cfgmod
+
+    # Colang 2 `import nemoguardrails.library....` is resolved against COLANGPATH-like roots
+    if repo not in _cfgmod.colang_path_dirs:
+        _cfgmod.colang_path_dirs.append(repo)
 
     class ExactIndex(EmbeddingsIndex):
         """Deterministic search provider: returns the indexed items in insertion order."""
@@ -385,7 +390,7 @@ def _c03_app(version):
         cfg = RailsConfig.from_content(colang_content=V1_C03_CO, yaml_content=V1_C03_YAML)
         names = V1_ACTIONS
     else:
-        cfg = RailsConfig.from_content(V2_CO, 'colang_version: "2.x"\n')
+        cfg = RailsConfig.from_content(V2_CO, V2_YAML)
         names = V2_ACTIONS
     llm = ScriptLLM(responses=[])
     llm.tasks = []
@@ -396,9 +401,9 @@ def _c03_app(version):
         async def act(text=None, context=None):
             k = box["occ"].get(name, 0)
             box["occ"][name] = k + 1
-            if name.startswith("in_") and text is None and context is not None and version == "v1":
+            if name == "in_rail_0" and context is not None:      # the shipped flows pass no parameter
                 text = context.get("user_message")
-            if name.startswith("out_") and text is None and context is not None and version == "v1":
+            if name == "out_rail_0" and context is not None:
                 text = context.get("bot_message")
             box["calls"].append([name, text if name.startswith(("in_", "out_")) else None])
             v = _decide(box["case"], box["turn"], name, k)
@@ -451,6 +456,8 @@ def run_c03_v1(case):
 V2_CO = '''
 import core
 import guardrails
+import nemoguardrails.library.self_check.input_check
+import nemoguardrails.library.self_check.output_check
 
 flow main
   activate answering
@@ -461,15 +468,11 @@ flow answering
   $r = await GenAction()
   bot say $r
 
+# rail a of both categories is the SHIPPED self-check flow (library/self_check/*/flows.co), its action
+# replaced by the scripted one; rail b is a custom flow of the same shape
 flow input rails $input_text
-  in rail a $input_text
+  self check input
   in rail b $input_text
-
-flow in rail a $t
-  $allowed = await InRail0Action(text=$t)
-  if not $allowed
-    bot refuse to respond
-    abort
 
 flow in rail b $t
   $allowed = await InRail1Action(text=$t)
@@ -478,14 +481,8 @@ flow in rail b $t
     abort
 
 flow output rails $output_text
-  out rail a $output_text
+  self check output
   out rail b $output_text
-
-flow out rail a $t
-  $allowed = await OutRail0Action(text=$t)
-  if not $allowed
-    bot refuse to respond
-    abort
 
 flow out rail b $t
   $allowed = await OutRail1Action(text=$t)
@@ -493,7 +490,16 @@ flow out rail b $t
     bot refuse to respond
     abort
 '''
-V2_ACTIONS = {"in_rail_0": "InRail0Action", "in_rail_1": "InRail1Action", "out_rail_0": "OutRail0Action",
+V2_YAML = '''
+colang_version: "2.x"
+models: []
+prompts:
+  - task: self_check_input
+    content: "unused {{ user_input }}"
+  - task: self_check_output
+    content: "unused {{ bot_response }}"
+'''
+V2_ACTIONS = {"in_rail_0": "self_check_input", "in_rail_1": "InRail1Action", "out_rail_0": "self_check_output",
               "out_rail_1": "OutRail1Action", "ret_action": "RetAction", "gen_action": "GenAction"}
 
 
